@@ -94,6 +94,9 @@ pub enum Case {
     Word { word: String },
     Bare { variant: String, name: String },
     Expr { text: String, parts: Vec<Part> },
+    /// `<name>^<exponent literal>` with an exponent that is not a plain integer literal (`1.5`, `2.0`, `2e0`, `-0.5`):
+    /// if accepted, the power applied must be exactly the literal's value.
+    OddExponent { variant: String, exponent: String },
     /// Two unit expressions in ONE query (`(1 a) (1 b)`), b being a written with its blanks closed up or
     /// opened: each must be read exactly as it is read alone, in either order.
     ExprPair { a: String, b: String },
@@ -666,8 +669,39 @@ fn check_expr_pair(a: &str, b: &str) -> CaseReport {
     CaseReport::pass(key, differ, vec![if differ { "pair-with-different-readings" } else { "pair-with-equal-readings" }])
 }
 
+fn check_odd_exponent(variant: &str, exponent: &str) -> CaseReport {
+    let v = vocab();
+    let u = v.unit(variant);
+    let text = format!("{}^{}", u.probe, exponent);
+    let key = format!("odd-exponent:{}", text);
+    let value = match crate::decimal::parse_literal(exponent) {
+        Some(x) => x,
+        None => return CaseReport::discard(key, "ill-formed exponent literal"),
+    };
+    let (a, b) = match tool_readings(&text) {
+        Ok(x) => x,
+        Err(p) => return CaseReport::fail(key, "panic", json!({"text": text, "panic": p})),
+    };
+    for (entry, reading) in [("str::parse::<Compound>", &a), ("query", &b)] {
+        if let Some(m) = reading {
+            // accepted: the unit must carry exactly the power the literal spells
+            let want: Option<i32> = if value.is_integer() { value.to_integer().to_string().parse().ok() } else { None };
+            let ok = match want {
+                Some(0) => m.is_empty(),
+                Some(n) => m.len() == 1 && m.get(&u.key()).map(|(p, _)| *p) == Some(n),
+                None => false,
+            };
+            if !ok {
+                return CaseReport::fail(key, "unit-exponent-not-the-value-written", json!({"text": text, "entry_point": entry, "exponent_value": value.to_string(), "read_as": mirror_json(m)}));
+            }
+        }
+    }
+    CaseReport::pass(key, true, vec![if a.is_some() || b.is_some() { "odd-exponent(accepted with its exact value)" } else { "odd-exponent(refused)" }])
+}
+
 fn check(c: &Case) -> CaseReport {
     match c {
+        Case::OddExponent { variant, exponent } => check_odd_exponent(variant, exponent),
         Case::ExprPair { a, b } => check_expr_pair(a, b),
         Case::Definition { variant } => check_definition(variant),
         Case::DefinitionPower { variant, power } => check_definition_power(variant, *power),
@@ -692,6 +726,13 @@ pub fn run_check(ctx: &Ctx) {
     let powers: &[i32] = ctx.tier.pick(&[-3, -2, -1, 2, 3][..], &[-6, -5, -4, -3, -2, -1, 2, 3, 4, 5, 6][..]);
     let defp: Vec<Case> = v.units.iter().flat_map(|u| powers.iter().map(move |n| Case::DefinitionPower { variant: u.variant.clone(), power: *n })).collect();
     ctx.run_list("definitions-under-powers", &defp, check, |c| to_json(c));
+    // exponents that are not plain integer literals
+    let odd: Vec<Case> = v
+        .units
+        .iter()
+        .flat_map(|u| ["1.5", "2.5", "-0.5", "0.5", "2.0", "2e0", "1.9", "-1.5", "3.", "1e-1", "0.999999999999", "1.0000000001"].iter().map(move |e| Case::OddExponent { variant: u.variant.clone(), exponent: e.to_string() }))
+        .collect();
+    ctx.run_list("odd-exponents", &odd, check, |c| to_json(c));
     // every name in front of every dimension that occurs in the vocabulary, and as a divisor under a cast
     let dims: BTreeSet<Dim> = v.units.iter().filter(|u| !u.offset).map(|u| u.dim).collect();
     ctx.put("target_dimensions", json!(dims.len()));
